@@ -1,13 +1,9 @@
 // drv_matmul: square special matrices (see drv_matmul.h)
 #include "drv_matmul.h"
 namespace mm {
-#define S_CASE(TAG, ENG) if (h[2] == TAG) { if (act) build_S1<ENG, true>(s, v); else build_S1<ENG, false>(s, v); return true; }
-bool build_group_sq(const Spec& s, XVisitor& v) {
-  const Words& h = s.head;
-  if (h[0] != "S") return false;
-  if (h.size() < 4 || (h[1] != "a" && h[1] != "p")) throw BadOp();
-  bool act = h[1] == "a";
-  S_CASE("sq", SquareEngine<ROW_MAJOR>) S_CASE("sqc", SquareEngine<COL_MAJOR>)
+bool build_group_s1(const Spec& s, XVisitor& v) {
+  S_GROUP_HEAD
+  S_PA("sq", SquareEngine<ROW_MAJOR>, 3) S_P("sqc", SquareEngine<COL_MAJOR>, 0)
   return false;
 }
 }
